@@ -1274,6 +1274,81 @@ def _name_exponents_bounded(F, s, e):
                 "checked_mul %s, checked_neg %s, magnitude bound %s" % (has_cmul, has_cneg, bound))
 
 
+_pbp = {}
+
+
+def producers_bound_powers(F):
+    """Global invariant behind the plain `a + b` on unit powers: every operation that can *grow* a power hands its result to a range
+    test (|power| <= i32::MAX) before the result can become a value: (1) Value * Value and Value / Value - the only way
+    eval_expr multiplies - build their Ok result only on the Continue edge of `powers_in_range(result)?`, for numbers and for
+    substance amounts; (2) eval_quantity's product and quotient are returned through the loader's powers_in_range; (3) the range
+    test itself compares unsigned_abs() with 2147483647; (4) Number::pow refuses a result outside that range (checked_mul +
+    bound).  Two powers inside the range cannot overflow an i64 when added."""
+    if "v" in _pbp:
+        return _pbp["v"]
+    why = []
+    ok = True
+    for name in ("<&'a runtime::value::Value as core::ops::arith::Mul<&'b runtime::value::Value>>::mul",
+                 "<&'a runtime::value::Value as core::ops::arith::Div<&'b runtime::value::Value>>::div"):
+        try:
+            fn = F.find(CORE, name, exact=True)
+        except AnchorLost:
+            ok = False
+            why.append("%s not found" % name)
+            continue
+        acts = [i for i, j, st in fn.stmts() if st.get("rv", {}).get("k") == "agg" and str(st["rv"].get("adt", "")).endswith("runtime::value::Value")
+                and st["rv"].get("variant") in ("Number", "Substance")]
+
+        def acc(kind, ap, info):
+            r = ap[0]
+            if kind == "variant" and r[0] == "call" and r[1].endswith("Try>::branch") and r[2] and r[2][0][0][0] == "call" and r[2][0][0][1].endswith("powers_in_range"):
+                return {"Continue"}
+            return None
+        res, matched = k2.cut_gate(fn, acts, acc)
+        good = len(acts) >= 2 and len(matched) >= 2 and all(res.values())
+        ok = ok and good
+        if not good:
+            why.append("%s builds a result that did not pass powers_in_range" % name.split("::")[-1])
+    # the helpers and the test
+    try:
+        dim = F.find(CORE, "types::dimensionality::Dimensionality::powers_in_range")
+        bound = False
+        for f in [dim] + list(F.closures_of(dim)):
+            for i, j, st in f.stmts():
+                rv = st.get("rv", {})
+                if rv.get("k") == "binop" and rv["op"] in ("Le", "Lt") and "unsigned_abs" in ap_str(f.apath(rv["a"])):
+                    c = const_int(rv["b"])
+                    bv = f.apath(rv["b"])
+                    bound = bound or (c is not None and c <= (1 << 31)) or ("2147483647" in ap_str(bv))
+        ok = ok and bound
+        if not bound:
+            why.append("Dimensionality::powers_in_range does not compare unsigned_abs() with i32::MAX")
+        for helper in ("runtime::value::powers_in_range", "loader::load::powers_in_range"):
+            h = F.find(CORE, helper)
+            if not any("callee" in t and t["callee"]["path"].endswith("Dimensionality::powers_in_range") for bb, t in h.calls()):
+                ok = False
+                why.append("%s does not call Dimensionality::powers_in_range" % helper)
+        eq = F.find(CORE, "loader::load::eval_quantity")
+        n = sum(1 for f in [eq] + list(F.closures_of(eq)) for bb, t in f.calls() if "callee" in t and t["callee"]["path"] == "loader::load::powers_in_range")
+        muls = sum(1 for f in [eq] + list(F.closures_of(eq)) for bb, t in f.calls() if "callee" in t and t["callee"]["path"].endswith(("Dimensionality as core::ops::arith::Mul>::mul", "Dimensionality as core::ops::arith::Div>::div")))
+        if n < muls or muls < 2:
+            ok = False
+            why.append("eval_quantity has %d products/quotients but %d range tests" % (muls, n))
+        pw = F.find(CORE, "types::number::Number::pow")
+        if not any("callee" in t and t["callee"]["path"].endswith("<impl i64>::checked_mul") for f in [pw] + list(F.closures_of(pw)) for bb, t in f.calls()):
+            ok = False
+            why.append("Number::pow no longer bounds the powers of its result")
+    except AnchorLost as ex:
+        ok = False
+        why.append(str(ex))
+    _pbp["v"] = (ok, "every producer of larger powers (Value mul/div, eval_quantity, Number::pow) range-tests its result" if ok else "; ".join(why))
+    return _pbp["v"]
+
+
+def _powers_bounded(F, s, e):
+    return producers_bound_powers(F)
+
+
 def _unit_name_constant_rational(F, s, e):
     """Context::show(.., bottom_const, ..): the constant of a conversion target.  Every caller passes Numeric::one() or the
     second component of eval_unit_name's result (directly, or through Substance::get_in_unit's parameter of the same name), and
@@ -1770,6 +1845,7 @@ def _operands_reset_to_one(F, s, e):
 
 BACKING = {
     "unit_name_constant_rational": _unit_name_constant_rational,
+    "powers_bounded": _powers_bounded,
     "name_exponents_bounded": _name_exponents_bounded,
     "i32_interval": _i32_interval,
     "sign_times_parsed": _sign_times_parsed,
